@@ -38,6 +38,7 @@ class Cfg(object):
 SIMPLE_MIX = ["none", "none", "simple", "simple"]
 COMMON = dict(ext_ids=True, floats=True, value_tables=True, units=True, receivers=True, explicit_limits=True,
               fd=True, max_len=64, multi_senders=True, global_value_tables=True, tables_named_like_signals=0.12,
+              j1939=True, fd_j1939_exclusive=True, id_twins=0.25,
               mux_value_tables=0.5, mux_declared_01=0.35, bare_signals=0.15)
 
 CONFIGS = [
